@@ -248,13 +248,13 @@ func pick(c *choice.Ctx, menu []event) *event {
 var pz struct {
 	selOn, selUsed bool   // owned selects: a non-default outcome may still be chosen / was chosen
 	selAt          string // "<file>:<line> case k" of that outcome
-	c    *choice.Ctx
-	ch   chan struct{}
-	at   string
-	used bool
-	hits map[string]int
-	cap  int
-	n    int64
+	c              *choice.Ctx
+	ch             chan struct{}
+	at             string
+	used           bool
+	hits           map[string]int
+	cap            int
+	n              int64
 
 	window, windows, step int
 
